@@ -14,8 +14,9 @@
 (*   set_result j      just before Future.set_result (only afterwards      *)
 (*                     W_SetResult)                                        *)
 (*   result j kind     result() returned/raised: tuple | timeout | oserror *)
-(*   shutdown_call     before shutdown()          (H_SetFlag only after)   *)
-(*   shutdown_return o shutdown() returned | raised                        *)
+(*   shutdown_call s   before shutdown() of caller s (H_SetFlag(s) only    *)
+(*                     afterwards); s in {s1, s2}                          *)
+(*   shutdown_return s o   shutdown() of caller s returned | raised        *)
 (* All other actions of Executor are hidden steps. A log is accepted iff   *)
 (* some interleaving of hidden steps consumes all its events; accepted     *)
 (* logs are printed (JREC) and counted by checks/c17.py.                   *)
@@ -38,8 +39,8 @@ Done == i = Len(Ev)
 TInit ==
     /\ tid \in 1..Len(Traces)
     /\ Init
-    /\ mode = Traces[tid].mode
-    /\ i = 0 /\ called = {} /\ shcalled = FALSE /\ srlogged = {} /\ popened = {} /\ accepted = {}
+    /\ mode = [s \in Shuts |-> Traces[tid].mode[s]]
+    /\ i = 0 /\ called = {} /\ shcalled = {} /\ srlogged = {} /\ popened = {} /\ accepted = {}
 
 \* hidden step of the model; a thread may not pass a log point whose event has not been consumed
 Hidden ==
@@ -50,7 +51,7 @@ Hidden ==
         /\ (spc[j] = "waiting" /\ spc'[j] # "waiting") => j \in accepted
         /\ (wpc[j] = "communicating" /\ wpc'[j] # "communicating") => j \in popened
         /\ (delivered'[j] # delivered[j]) => j \in srlogged
-    /\ (hpc = "idle" /\ hpc' # "idle") => shcalled
+    /\ \A s \in Shuts : (hpc[s] = "idle" /\ hpc'[s] # "idle") => s \in shcalled
     /\ UNCHANGED <<tid, i, called, shcalled, srlogged, popened, accepted>>
 
 Match(e) ==
@@ -61,8 +62,8 @@ Match(e) ==
       [] e.e = "popen_failed" -> wpc[e.j] = "setresult" /\ exc[e.j] = "oserror" /\ proc[e.j] = "none"
       [] e.e = "set_result" -> wpc[e.j] = "setresult" /\ e.j \notin srlogged
       [] e.e = "result" -> spc[e.j] = "got" /\ seen[e.j] = e.x
-      [] e.e = "shutdown_call" -> hpc = "idle" /\ ~shcalled /\ mode # "none"
-      [] e.e = "shutdown_return" -> hpc = e.x
+      [] e.e = "shutdown_call" -> hpc[e.j] = "idle" /\ e.j \notin shcalled /\ mode[e.j] # "none"
+      [] e.e = "shutdown_return" -> hpc[e.j] = e.x
       [] OTHER -> FALSE
 
 Event ==
@@ -73,7 +74,7 @@ Event ==
         /\ accepted' = IF e.e = "accepted" THEN accepted \cup {e.j} ELSE accepted
         /\ popened' = IF e.e = "popen" THEN popened \cup {e.j} ELSE popened
         /\ srlogged' = IF e.e = "set_result" THEN srlogged \cup {e.j} ELSE srlogged
-        /\ shcalled' = (shcalled \/ e.e = "shutdown_call")
+        /\ shcalled' = IF e.e = "shutdown_call" THEN shcalled \cup {e.j} ELSE shcalled
     /\ i' = i + 1
     /\ UNCHANGED <<vars, tid>>
 
